@@ -1,6 +1,7 @@
 import Ptn.C12.Model
 import Ptn.C12.Lemmas
 import Mathlib.LinearAlgebra.Matrix.Rank
+import Ptn.C01.Cut
 /-! Property theorems for C12 (bond dimensions of TTNOs built from Hamiltonians).  Only property
 theorems and non-vacuity examples live here.
 
@@ -10,7 +11,7 @@ can have fewer bond indices than the operator Schmidt rank (so the Schmidt rank 
 Not covered (decided per input by the harness): that the symbolic-Gaussian-elimination construction
 reaches that minimum - it does not always (finding F-C12a). -/
 namespace Ptn.C12
-open Ptn.C01
+open Ptn.C01 Finset
 
 /-- A single-term Hamiltonian: the diagram has exactly one vertex on every edge of the tree, hence
     the TTNO has bond dimension one on every edge - for every tree, every support, every coefficient. -/
@@ -50,7 +51,73 @@ theorem bond_ge_schmidt_rank {K : Type*} [Field K] {a b : Type*} [Fintype a] [Fi
   exact (Matrix.rank_mul_le_left L R).trans
     ((Matrix.rank_le_card_width L).trans (Fintype.card_fin r).le)
 
+/-- The bond created at a cut equals the size of the chosen vertex cover: after factorising
+    `Γ = L · Γ' · R` and covering the support of `Γ'` by `(Cu, Cv)`, the operator of the cut is a sum of
+    exactly `|Cu| + |Cv|` pure tensors (one new vertex each) - the routing of
+    `Ptn.C01.cut_preserves`, re-indexed by `Fin (|Cu| + |Cv|)`. -/
+theorem bond_eq_cover {K : Type*} [CommSemiring K] {A B C : Type*} [AddCommMonoid A]
+    [AddCommMonoid B] [AddCommMonoid C] [Module K A] [Module K B] [Module K C]
+    {ι κ ι' κ' : Type*} [Fintype ι] [Fintype κ] [Fintype ι'] [Fintype κ']
+    [DecidableEq ι'] [DecidableEq κ']
+    (f : A →ₗ[K] B →ₗ[K] C) (U : ι → A) (V : κ → B)
+    (Γ : Matrix ι κ K) (L : Matrix ι ι' K) (Γ' : Matrix ι' κ' K) (R : Matrix κ' κ K)
+    (h : Γ = L * Γ' * R) (Cu : Finset ι') (Cv : Finset κ') (hc : IsCover Γ' Cu Cv) :
+    ∃ (a : Fin (Cu.card + Cv.card) → A) (b : Fin (Cu.card + Cv.card) → B),
+      ∑ k, f (a k) (b k) = ∑ u, ∑ v, Γ u v • f (U u) (V v) := by
+  have hcard : Fintype.card (↥Cu ⊕ ↥Cv) = Cu.card + Cv.card := by simp
+  let e := Fintype.equivFinOfCardEq hcard
+  refine ⟨fun k => routeA (fun u' => ∑ u, L u u' • U u) Γ' Cu Cv (e.symm k),
+    fun k => routeB (fun v' => ∑ v, R v' v • V v) Γ' Cu Cv (e.symm k), ?_⟩
+  rw [← cut_preserves_lem f U V Γ L Γ' R h Cu Cv hc]
+  exact Equiv.sum_comp e.symm (fun k => f (routeA (fun u' => ∑ u, L u u' • U u) Γ' Cu Cv k)
+    (routeB (fun v' => ∑ v, R v' v • V v) Γ' Cu Cv k))
+
+/-- No cover can be smaller than the rank of the (reduced) coefficient matrix: a cover `(Cu, Cv)` of
+    the support of `G` factors `G` through `|Cu| + |Cv|` indices.  (That a *minimum* cover of the reduced
+    matrix reaches the rank is the unproved part, see F-C12a.) -/
+theorem cover_ge_rank {F : Type*} [Field F] {ι κ : Type*} [Fintype ι] [Fintype κ]
+    [DecidableEq ι] [DecidableEq κ] (G : Matrix ι κ F) (Cu : Finset ι) (Cv : Finset κ)
+    (hc : IsCover G Cu Cv) : G.rank ≤ Cu.card + Cv.card := by
+  let L : Matrix ι (↥Cu ⊕ ↥Cv) F := fun i k =>
+    match k with
+    | .inl c => if i = c.1 then 1 else 0
+    | .inr c => if i ∈ Cu then 0 else G i c.1
+  let R : Matrix (↥Cu ⊕ ↥Cv) κ F := fun k j =>
+    match k with
+    | .inl c => G c.1 j
+    | .inr c => if j = c.1 then 1 else 0
+  have hG : G = L * R := by
+    ext i j
+    rw [Matrix.mul_apply, Fintype.sum_sum_type]
+    simp only [L, R]
+    have h1 : ∑ c : ↥Cu, (if i = c.1 then (1 : F) else 0) * G c.1 j = if i ∈ Cu then G i j else 0 := by
+      rw [Finset.sum_coe_sort Cu (fun c => (if i = c then (1 : F) else 0) * G c j)]
+      simp [Finset.sum_ite_eq]
+    have h2 : ∑ c : ↥Cv, (if i ∈ Cu then (0 : F) else G i c.1) * (if j = c.1 then 1 else 0) =
+        if j ∈ Cv then (if i ∈ Cu then 0 else G i j) else 0 := by
+      rw [Finset.sum_coe_sort Cv (fun c => (if i ∈ Cu then (0 : F) else G i c) * (if j = c then 1 else 0))]
+      simp [Finset.sum_ite_eq]
+    rw [h1, h2]
+    by_cases hi : i ∈ Cu
+    · simp [hi]
+    · by_cases hj : j ∈ Cv
+      · simp [hi, hj]
+      · have : G i j = 0 := by
+          by_contra hne
+          rcases hc i j hne with h | h
+          · exact hi h
+          · exact hj h
+        simp [hi, hj, this]
+  rw [hG]
+  calc (L * R).rank ≤ L.rank := Matrix.rank_mul_le_left L R
+    _ ≤ Fintype.card (↥Cu ⊕ ↥Cv) := Matrix.rank_le_card_width L
+    _ = Cu.card + Cv.card := by simp
 /-! ### Non-vacuity -/
+
+-- a cover as required by `bond_eq_cover` / `cover_ge_rank`: the row of a 1 × 2 matrix
+example : IsCover (Matrix.of fun (_ : Fin 1) (_ : Fin 2) => (1 : ℚ)) {0} ∅ := by
+  intro i j _; left; simp; exact Subsingleton.elim i 0
+
 
 example : singleBonds exTree exT1 = [(2, 1), (1, 1), (3, 1)] := by decide +kernel
 example : baseBonds exTree [exT1, exT2, exT1] = some [(2, 3), (1, 3), (3, 3)] := by decide +kernel
